@@ -113,7 +113,8 @@ class Ctx:
 
         where: FunctionInfo | ClassInfo | str (qualname); node: ast/CFG node for the line."""
         if isinstance(where, FunctionInfo):
-            q = where.qualname
+            # a function that moved to another module and is imported back where the rules look for it keeps its old address
+            q = getattr(where, "anchor_qualname", None) or where.qualname
             a = getattr(node, "ast", node)
             if a is None or getattr(a, "lineno", None) is None:
                 a = getattr(node, "stmt", None) if node is not None else None
